@@ -60,6 +60,7 @@ WORKLOADS = {
     "io_epoll": ("w_io.cpp", ("fdlayer", "uring")),
     "io_uring": ("w_io.cpp", ("fdlayer", "uring")),
     "io_uring_flood": ("w_io.cpp", ("fdlayer", "uring")),
+    "io_epoll_wfull": ("w_io.cpp", ("fdlayer", "uring")),
 }
 
 PROPS = {
@@ -179,7 +180,7 @@ PROPS = {
         batches=[
             B("w_expr.cpp", "expr", quick=14, thorough=240, params="faults=1", oracles=["c01."] + RT_LIVE),
             B("w_expr.cpp", "expr", quick=8, thorough=120, params="faults=0", oracles=["c01."] + RT_LIVE),
-            B("w_expr.cpp", "expr", quick=6, thorough=90, params="faults=1,more=1,wany=1", oracles=["c01."] + RT_LIVE),
+            B("w_expr.cpp", "expr", quick=6, thorough=90, params="faults=1,more=2,wany=1", oracles=["c01."] + RT_LIVE),
             # scopes: the attach/nest/future operations arbitrate "who completes the receiver" between the child and two stop paths
             B("w_scope.cpp", "scope_v1", quick=4, thorough=60, oracles=["c01.", "c08.double", "c08.join-double", "c08.join-lost", "c09.outcome"] + RT_LIVE),
             B("w_scope.cpp", "scope_v2", quick=3, thorough=45, oracles=["c01.", "c08.double", "c08.join-double", "c08.join-lost", "c09.outcome"] + RT_LIVE),
@@ -196,7 +197,10 @@ PROPS = {
             B("w_expr.cpp", "expr", quick=8, thorough=120, params="faults=0", oracles=["c02."] + RT_MEM + RT_LIB),
             B("w_expr.cpp", "expr", cfg="S17r", quick=8, thorough=120, params="faults=1", oracles=["c02."] + RT_MEM + RT_LIB),
             B("w_expr.cpp", "expr", quick=8, thorough=120, params="faults=1,alloc=1", oracles=["c02.", "c04.live-registration"] + RT_MEM + RT_LIB),
-            B("w_expr.cpp", "expr", quick=6, thorough=90, params="faults=1,alloc=1,more=1,wany=1", oracles=["c02.", "c04.live-registration", "c12.allocator-pairing"] + RT_MEM + RT_LIB),
+            B("w_expr.cpp", "expr", quick=6, thorough=90, params="faults=1,alloc=1,more=2,wany=1", oracles=["c02.", "c04.live-registration", "c12.allocator-pairing"] + RT_MEM + RT_LIB),
+            # adaptors that heap-allocate state whose owner is decided by a completion/stop race (workloads of C19)
+            B("w_cancel.cpp", "cancel_detach", quick=4, thorough=60, oracles=["c02."] + RT_ALL),  # (RT_LIVE: the harness waits for the detached child to be destroyed)
+            B("w_cancel.cpp", "cancel_sor", quick=2, thorough=30, oracles=["c02."] + RT_ALL),
         ],
         level_text=("Seeded sender-interpreter runs: a random expression tree (depth<=4, <=12 nodes, <=8 scripted leaves) over the real library adaptors, each node re-erased through a harness any_snd so that every edge is a tap; leaves complete inline or later on two actor threads with value/error/done and react to stop or ignore it; an external stop request is placed before start, after k yields or when a chosen leaf has started; faults: throwing callables, a throwing k-th Val copy, spurious weak-CAS failures and wake-ups; the root op state is destroyed inside the root receiver's completion in most runs. C02 oracles: tracked Val objects (construct-on-live, double destroy, use after destroy, leak), every op state of every node destroyed exactly once and never while started-and-uncompleted, arena leak check, shadow memory on every library access after the root op was freed inside its completion. The alloc=1 batch lets operator new fail (seeded, on the connecting thread only) anywhere inside the top-level connect() - the heap operation of any_sender_of and every nested connect - and requires the exception to propagate out of connect() with every partially built operation state destroyed once, no stop-callback registration left behind and no leak."),
         level_note=('Trusted: as C01. Allocation failures are injected during connect only: start() and the completion paths are noexcept, an allocation failure there terminates by design (spawn/allocate failures are in the scope/future checks).'),
@@ -208,7 +212,7 @@ PROPS = {
         batches=[
             B("w_expr.cpp", "expr", quick=14, thorough=240, params="faults=1", oracles=["c04."] + RT_LIVE),
             B("w_expr.cpp", "expr", quick=8, thorough=120, params="faults=0", oracles=["c04."] + RT_LIVE),
-            B("w_expr.cpp", "expr", quick=6, thorough=90, params="faults=1,more=1,wany=1", oracles=["c04."] + RT_LIVE),
+            B("w_expr.cpp", "expr", quick=6, thorough=90, params="faults=1,more=2,wany=1", oracles=["c04."] + RT_LIVE),
             # stream adaptors that interpose a stop source / forward stop to the source's next() (take_until, stop_immediately, type_erase, on_stream):
             # release build so that the adaptors' state assertions are compiled out and only the stop oracle decides
             B("w_stream.cpp", "stream", cfg="S17r", quick=5, thorough=60, oracles=["c04."] + RT_LIVE),
@@ -226,7 +230,7 @@ PROPS = {
             B("w_expr.cpp", "expr", quick=8, thorough=120, params="faults=0", oracles=["c05."] + RT_MEM),
             B("w_expr.cpp", "expr", quick=8, thorough=120, params="faults=0,wany=1", oracles=["c05.", "c01.", "c02.", "c04."] + RT_LIVE),
             B("w_expr.cpp", "expr", quick=6, thorough=90, params="faults=1,wany=1", oracles=["c05.", "c01.", "c02.", "c04."] + RT_LIVE),
-            B("w_expr.cpp", "expr", quick=6, thorough=90, params="faults=1,more=1", oracles=["c05.", "c01.", "c02.", "c04."] + RT_LIVE),
+            B("w_expr.cpp", "expr", quick=6, thorough=90, params="faults=1,more=2", oracles=["c05.", "c01.", "c02.", "c04."] + RT_LIVE),
         ],
         level_text=("Seeded sender-interpreter runs: a random expression tree (depth<=4, <=12 nodes, <=8 scripted leaves) over the real library adaptors, each node re-erased through a harness any_snd so that every edge is a tap; leaves complete inline or later on two actor threads with value/error/done and react to stop or ignore it; an external stop request is placed before start, after k yields or when a chosen leaf has started; faults: throwing callables, a throwing k-th Val copy, spurious weak-CAS failures and wake-ups; the root op state is destroyed inside the root receiver's completion in most runs. The wany=1 batches add when_any (2-3 children) to the node set: the result must be that of the first child to complete - value, error or done - where 'first' is decided by the tap order (overlapping completions: any of them), done is accepted when a stop request could be visible; its losers must see the stop request (C04 oracle). C05 oracles: a local reference model evaluated at every tap instance from the *observed* child outcomes: then/upon_*/let_* fire exactly on their channel and forward the others, throwing callables become set_error(that exception), sequence/let/finally start the next step only after the previous completed and short-circuit, when_all yields all values or the first error/done (overlapping completions: either), stop_when the source's result, done_as_optional/materialize round trips, via/on forward (done allowed only when a stop could be visible); callable invocation counts equal matching child completions."),
         level_note=('Trusted: as C01; the model encodes doc/api_reference.md plus the precedence rules read from the code (Appendix C of DESIGN.md). sync_wait is not in the interpreter; the more=1 batches add repeat_effect_until (1-3 rounds, optionally a throwing predicate), defer, let_value_with, let_value_with_stop_token, allocate, into_variant, variant_sender and with_allocator as (transparent) nodes.'),
@@ -238,7 +242,7 @@ PROPS = {
         batches=[
             B("w_expr.cpp", "expr", quick=8, thorough=90, params="faults=1", oracles=["c12.", "c04.started-after-stop", "c04.child-not-stopped", "c04.loser-not-stopped"]),
             B("w_expr.cpp", "expr", quick=4, thorough=45, params="faults=0", oracles=["c12.", "c04.started-after-stop", "c04.child-not-stopped", "c04.loser-not-stopped"]),
-            B("w_expr.cpp", "expr", quick=6, thorough=90, params="faults=1,more=1,alloc=1", oracles=["c12.", "c04.started-after-stop", "c04.child-not-stopped", "c04.loser-not-stopped"]),
+            B("w_expr.cpp", "expr", quick=6, thorough=90, params="faults=1,more=2,alloc=1", oracles=["c12.", "c04.started-after-stop", "c04.child-not-stopped", "c04.loser-not-stopped"]),
         ],
         level_text=("Seeded sender-interpreter runs: a random expression tree (depth<=4, <=12 nodes, <=8 scripted leaves) over the real library adaptors, each node re-erased through a harness any_snd so that every edge is a tap; leaves complete inline or later on two actor threads with value/error/done and react to stop or ignore it; an external stop request is placed before start, after k yields or when a chosen leaf has started; faults: throwing callables, a throwing k-th Val copy, spurious weak-CAS failures and wake-ups; the root op state is destroyed inside the root receiver's completion in most runs. C12 oracle: every started leaf records get_scheduler / get_allocator / a custom query CPO as seen through the receiver it was given; they must equal the root receiver's answers modified only by on (scheduler) and with_query_value (custom CPO) on the path; get_stop_token chaining is decided by C04's oracles on the same runs."),
         level_note=('Honest scope: the forwarding clause is a function of the program only; the simulator contributes the generated programs. allocate()/with_allocator pairing is covered by the more=1 batch (every allocation made through an allocator obtained from a receiver goes back to that allocator, also when a nested connect throws or an allocation fails); the allocator argument of spawn_detached/spawn_future is checked for pairing on the scope workloads (C08/C09 executions; oracle c12.allocator-pairing is decided there).'),
@@ -520,6 +524,8 @@ PROPS = {
             B("w_io.cpp", "io_uring", rt=("fdlayer", "uring"), quick=14, thorough=300, oracles=["c14.", "c07."] + RT_ALL),
             B("w_io.cpp", "io_uring", cfg="S17r", rt=("fdlayer", "uring"), quick=5, thorough=120, oracles=["c14.", "c07."] + RT_ALL),
             B("w_io.cpp", "io_uring_flood", rt=("fdlayer", "uring"), quick=4, thorough=60, oracles=["c14.", "c07."] + RT_ALL),
+            B("w_io.cpp", "io_epoll_wfull", rt=("fdlayer", "uring"), quick=4, thorough=60, oracles=["c14."] + RT_ALL),
+            B("w_io.cpp", "io_epoll_wfull", cfg="S17r", rt=("fdlayer", "uring"), quick=2, thorough=30, oracles=["c14."] + RT_ALL),
         ],
         level_text=("io_epoll_context: the library's epoll code runs unmodified on the real kernel's epoll, eventfd and pipe objects (private "
                     "to the process, one sim thread at a time, hence deterministic); time is virtual: timerfd is an eventfd written by the "
@@ -545,6 +551,7 @@ PROPS = {
                     "(a ready request is left in flight); extra oracles: the user memory the kernel would read or write (iovec, buffer, "
                     "timespec) is alive at that moment, each ring mapping is unmapped exactly once with its own length, the ring fd is closed. "
                     "Two defects found by this workload were confirmed on the real kernel with a native probe (findings/probes/) and fixed. "
+                    "io_epoll_wfull: the pipe is shrunk to one page and filled behind the library's back, so async_write_some parks on EPOLLOUT; the parked write is cancelled (before start / after k yields) or woken by a raw drain, destroyed, and a second write on the same descriptor (parking again after a refill, or inline) follows; oracles: exactly once, done only after stop, the byte stream drained from the pipe equals fill + reported writes, and c14.stale-registration - the fd layer mirrors the kernel's epoll set and reports any block of memory freed while a registration's data.ptr still points into it (all io workloads). "
                     "io_uring_flood: 40-600 reads parked concurrently on one idle pipe (around and beyond the 512 completion-queue entries, the surplus "
                     "waiting in pendingIoQueue_), then every read is cancelled by 1-2 stopper threads: all must complete with done and run(stop) must return."),
         level_note=("NOT covered: sockets/accept, IORING_OP_* beyond the seven listed, -EALREADY from ASYNC_CANCEL, injected OS "
